@@ -376,7 +376,12 @@ func Run(tier string, seed int64, outDir string) *common.Meta {
 		if m := regexp.MustCompile(`^(?:go)?(\d{1,9})\.(\d{1,9})$`).FindStringSubmatch(s); m != nil {
 			a, _ := strconv.Atoi(m[1])
 			b, _ := strconv.Atoi(m[2])
-			if err != nil || v.Major != a || v.Minor != b {
+			if a == 0 {
+				// there is no Go 0.x, and major 0 is the internal "no version" value: accepting it would make the request mean "newest"
+				if err == nil {
+					meta.Fail("C15/ParseGoVersion/zero-major-accepted", fmt.Sprintf("ParseGoVersion(%q) = %v: a version that names no release is accepted (and then means 'no version configured')", s, v), s)
+				}
+			} else if err != nil || v.Major != a || v.Minor != b {
 				meta.Fail("C15/ParseGoVersion/numeric", fmt.Sprintf("ParseGoVersion(%q) = %v, %v", s, v, err), s)
 			}
 		}
